@@ -584,7 +584,7 @@ impl Transformer {
     ) -> Result<()> {
         let mut new_svg_attrs = AttrMap::new();
         let mut orig_svg_attrs = HashMap::new();
-        if let OutputEvent::Start(orig_svg) = first_svg {
+        if let OutputEvent::Start(orig_svg) | OutputEvent::Empty(orig_svg) = first_svg {
             new_svg_attrs = orig_svg.attrs.clone();
             orig_svg_attrs = orig_svg.get_attrs();
         }
@@ -739,8 +739,16 @@ impl Transformer {
         let mut has_svg_element = false;
         if let (pre_svg, Some(first_svg), remain) = events.partition("svg") {
             pre_svg.write_to(writer)?;
+            // The root is always written as a start tag (styles etc may follow it),
+            // so an empty root element (`<svg/>`) needs a matching end tag adding.
+            let empty_root = matches!(first_svg, OutputEvent::Empty(_));
             self.write_root_svg(first_svg, bbox, writer)?;
             events = remain;
+            if empty_root {
+                let mut closed = vec![OutputEvent::End("svg".to_owned())];
+                closed.extend(events);
+                events = OutputList::from(closed);
+            }
             has_svg_element = true;
         }
 
